@@ -147,7 +147,7 @@ class OptEngineBase:
     def plan_faults(self, rng, case, counts, menu, max_faults=2):
         """counts: {op_index: {seam: n}}; menu: {seam: [kinds]} -> list of faults."""
         slots = []
-        for op, seams in sorted(counts.items()):
+        for op, seams in sorted((k, v) for k, v in counts.items() if isinstance(k, int)):
             if op < 0:
                 continue
             for seam, n in sorted(seams.items()):
@@ -173,6 +173,43 @@ class OptEngineBase:
                 f["seconds"] = rng.choice([1.0, 3600.0, 1e6])
             faults.append(f)
         return faults
+
+    # ---- complete fault-position sweeps (thorough tier)
+    SWEEP_EVERY = {"thorough": 25}
+    SWEEP_MENU = {}
+    SWEEP_MAX = 160
+
+    def sweep_plans(self, case):
+        """One single-fault plan per seam event of every op of the fault-free case (kinds round-robin)."""
+        dry = self.execute(copy.deepcopy(case), dry=True)
+        plans = []
+        actions = dry.counts.get("__actions__")
+        for op, seams in sorted((k, v) for k, v in dry.counts.items() if isinstance(k, int) and k >= 0):
+            for seam, n in sorted(seams.items()):
+                menu = self.SWEEP_MENU.get(seam)
+                if not menu or n <= 0 or n > 64:
+                    continue
+                for ev in range(n):
+                    kinds = menu
+                    if seam == "disk" and actions is not None:
+                        act = [a[2] for a in actions if a[0] == op and a[1] == ev]
+                        act = act[0] if act else ""
+                        kinds = self.DISK_MENU.get(act.split(":")[0])
+                        if not kinds:
+                            continue
+                    kind = kinds[(ev + op) % len(kinds)]
+                    f = {"op_index": op, "seam": seam, "event": ev, "kind": kind, "of": n}
+                    if kind in ("enospc", "eio_write"):
+                        f["sticky"] = (ev % 2 == 0)
+                    if kind in ("short_write", "short_read"):
+                        f["n"] = 1 + ev % 3
+                    plans.append([f])
+        if len(plans) > self.SWEEP_MAX:
+            step = len(plans) / float(self.SWEEP_MAX)
+            plans = [plans[int(i * step)] for i in range(self.SWEEP_MAX)]
+        return plans
+
+    DISK_MENU = {"write": ["enospc", "eio_write", "short_write"], "read": ["eio_read", "short_read"], "close": ["eio_close"]}
 
     # ---- shrinking moves on the workload graph
     def shrink_moves(self, case):
